@@ -1,5 +1,478 @@
-"""D_pw -- point-wise shape analysis (batch clause of C06); placeholder until built."""
+"""D_pw -- point-wise shape analysis (batch clause of C06; DESIGN 2.4, 3 C06(b)).
+
+How does a returned array depend on the request?  Each value-graph node gets
+one of
+  C   independent of the points
+  S   depends on the points only through their number / shape
+  I   the loop index over the points (for i in range(len(r)), enumerate(r))
+  P   a scalar that is a function of ONE point: the point of the current index
+  E   an array aligned with the points whose element i depends only on point i
+  G   an internal grid that contains the query points (append(.., points); sort)
+      and arrays that are element-wise functions of that grid
+  B   batch: depends on a reduction / ordering / endpoint / neighbour of the points
+  T   unknown construct (no verdict; counted)
+A returned non-position field must be C, E or "interp(points, G, G)" (exact at
+grid nodes); B is a violation unless the solver is one of those the property
+names as documented grid-dependent.
+"""
+from .model import AnalysisError
+from .report import Finding
+from .vg import Builder, walk
+from .rules.c05 import phi_leaves, POS_RE
+
+PROP = 'C06'
+C, S, I, P, E, G, B, T = 'C', 'S', 'I', 'P', 'E', 'G', 'B', 'T'
+
+ELEMENTWISE = {
+    'numpy.where', 'numpy.sqrt', 'numpy.exp', 'numpy.log', 'numpy.log10', 'numpy.sin', 'numpy.cos', 'numpy.tan',
+    'numpy.arcsin', 'numpy.arccos', 'numpy.arctan', 'numpy.arctan2', 'numpy.sinh', 'numpy.cosh', 'numpy.tanh',
+    'numpy.abs', 'builtins.abs', 'numpy.sign', 'numpy.square', 'numpy.power', 'builtins.pow', 'math.sqrt', 'math.exp',
+    'math.log', 'math.sin', 'math.cos', 'math.pow', 'numpy.maximum', 'numpy.minimum', 'numpy.greater', 'numpy.less',
+    'numpy.greater_equal', 'numpy.less_equal', 'numpy.logical_and', 'numpy.logical_or', 'numpy.logical_not',
+    'numpy.isnan', 'numpy.isfinite', 'numpy.isclose', 'numpy.float64', 'builtins.float', 'numpy.asarray', 'numpy.array',
+    'numpy.copy', 'numpy.ones_like', 'numpy.zeros_like', 'numpy.empty_like', 'numpy.full_like', 'numpy.hypot',
+    'scipy.special.i0', 'scipy.special.jn', 'scipy.special.yn', 'numpy.nan_to_num', 'numpy.real', 'numpy.clip',
+    'builtins.max', 'builtins.min', 'math.hypot', 'numpy.heaviside', 'numpy.multiply', 'numpy.divide', 'numpy.add',
+    'numpy.subtract', 'builtins.int', 'builtins.bool', 'builtins.round', 'numpy.round', 'math.acos', 'math.asin',
+    'math.atan', 'math.atan2', 'numpy.arcsinh', 'math.erf', 'math.floor', 'numpy.floor', 'numpy.ceil',
+    'numpy.atleast_1d', 'builtins.tuple', 'builtins.list', 'math.isnan', 'math.log10', 'builtins.complex',
+    'builtins.isinstance', 'numpy.iscomplex', 'numpy.isreal', 'numpy.dot', 'numpy.linalg.norm',
+}
+# reductions / order-dependent operations over their first argument
+REDUCTIONS = {
+    'numpy.max', 'numpy.min', 'numpy.amax', 'numpy.amin', 'numpy.sum', 'numpy.mean', 'numpy.sort', 'numpy.cumsum',
+    'numpy.argmin', 'numpy.argmax', 'numpy.argsort', 'numpy.diff', 'numpy.unique', 'numpy.flip', 'numpy.median',
+    'builtins.sum', 'builtins.sorted', 'builtins.reversed', 'numpy.any', 'numpy.all', 'builtins.any', 'builtins.all',
+    'numpy.cumprod', 'numpy.prod', 'numpy.gradient', 'numpy.trapz', 'numpy.nanmax', 'numpy.nanmin', 'numpy.ptp',
+    'numpy.std', 'numpy.var', 'numpy.searchsorted', 'numpy.count_nonzero', 'numpy.nonzero', 'numpy.roll',
+}
+SHAPE_FUNCS = {'builtins.len', 'numpy.shape', 'numpy.size', 'numpy.ndim'}
+ALLOC = {'numpy.zeros', 'numpy.ones', 'numpy.empty', 'numpy.full'}
+INITIAL_GUESS = {'scipy.optimize.fsolve': 1, 'scipy.optimize.newton': 1}   # position of the starting point
+
+ORDER = {C: 0, S: 1, I: 2, P: 3, E: 4, G: 5, B: 6, T: 7}
+
+
+def join(*xs):
+    xs = [x for x in xs if x is not None]
+    if not xs:
+        return C
+    if T in xs:
+        return T
+    if B in xs:
+        return B
+    s = set(xs)
+    if G in s:
+        # grid arrays combine with constants / shapes only
+        return G if s <= {G, C, S} else B
+    if E in s and (P in s or I in s):
+        return B          # mixing a whole-array value with a per-index scalar
+    return max(s, key=lambda x: ORDER[x])
+
+
+class PwEval:
+    def __init__(self, root):
+        self.root = root
+        self.memo = {}
+        self.why = {}          # nid -> reason for B
+        self.top = {}
+        self.guess_ignored = []
+        self.row_layout = False     # (d, N) point layout (known C05 findings): points[j] is a coordinate row
+        self.view_mutated = set()
+        self.loop_vars = {}     # id(iter ast) -> index / element nodes of that loop
+
+    def cls(self, n):
+        if n is None:
+            return C
+        if n.nid in self.memo:
+            return self.memo[n.nid]
+        self.memo[n.nid] = C if n.kind != 'mu' else None
+        r = self._cls(n)
+        self.memo[n.nid] = r
+        return r
+
+    def batch(self, n, why):
+        self.why[n.nid] = why
+        return B
+
+    def unknown(self, n, why):
+        self.top[why] = self.top.get(why, 0) + 1
+        return T
+
+    def _cls(self, n):
+        k = n.kind
+        if n is self.root:
+            return E
+        if n.nid in self.view_mutated:
+            return self.unknown(n, 'array mutated in place through a row/element view (aliasing not modelled)')
+        if n.nid < self.root.nid:
+            return C          # created before the request existed (constructor, class body): cannot depend on it
+        if k in ('const', 'param', 'input', 'extfunc', 'closure', 'obj', 'module', 'class', 'undef', 'kwargs', 'hoarg'):
+            return C
+        if k == 'unknown':
+            # a leaf: carries no dependence on the points unless it stands for a cut-off computation
+            if str(n.val).startswith(('recursion/depth', 'expr ')):
+                return self.unknown(n, 'unknown:' + str(n.val)[:30])
+            return C
+        if k in ('binop', 'unop', 'cmp', 'bool', 'tuple', 'list', 'arrayof', 'slice', 'starred'):
+            return self.up(n, join(*[self.cls(a) for a in n.args]))
+        if k == 'dict':
+            return join(*[self.cls(a) for a in n.args])
+        if k == 'phi':
+            c = self.cls(n.args[0])
+            arms = join(self.cls(n.args[1]), self.cls(n.args[2]))
+            if c in (T, B):
+                return self.up(n, join(c, arms))
+            if c in (P, I) and arms in (E, P, C, S, I):
+                return arms if arms in (E, P) else P     # a per-point test selects per-point values / stores
+            return self.up(n, join(c, arms))
+        if k == 'index':
+            a = join(*[self.cls(x) for x in n.args]) if n.args else C
+            return I if a in (S, E, I) or not n.args else (C if a == C else a)
+        if k == 'elem':
+            a = self.cls(n.args[0])
+            if a == E:
+                return P
+            if a == G:
+                return self.batch(n, 'iteration over the internal grid')
+            return a
+        if k == 'attr':
+            a = self.cls(n.args[0])
+            if n.val in ('shape', 'size', 'ndim', 'dtype'):
+                return S if a in (E, G, S) else a
+            return a
+        if k == 'sub':
+            return self.sub(n)
+        if k == 'store':
+            return self.store(n)
+        if k == 'mu':
+            return self.mu(n)
+        if k == 'call':
+            return self.call(n)
+        if k == 'mcall':
+            return self.mcall(n)
+        if k in ('attrstore',):
+            return C
+        if k == 'callunk':
+            a = join(*[self.cls(x) for x in n.args])
+            return C if a == C else self.unknown(n, 'unresolved call')
+        if k == 'super':
+            return C
+        return self.unknown(n, 'kind:' + k)
+
+    def up(self, n, c):
+        if c == B and n.nid not in self.why:
+            for a in n.args:
+                if a is not None and a.nid in self.why:
+                    self.why[n.nid] = self.why[a.nid]
+                    break
+        return c
+
+    def sub(self, n):
+        base, idx = n.args
+        a, i = self.cls(base), self.cls(idx)
+        if a == T or i == T:
+            return T
+        if a in (C, S):
+            if i in (C, S):
+                return a
+            if i == I:
+                if idx.kind != 'index' and not (idx.kind == 'tuple' and idx.args and idx.args[0].kind == 'index'):
+                    return self.batch(n, 'element at an index computed from the loop index (neighbour access)')
+                return C if a == C and not self.depends_on_root(base) else a
+            return self.up(n, join(a, i))
+        if a == E:
+            if i == I:
+                if idx.kind == 'index':
+                    return P
+                return self.batch(n, 'element at an index computed from the loop index (neighbour access)')
+            if idx.kind == 'slice' and all(x.kind == 'const' and x.val is None for x in idx.args):
+                return E
+            if idx.kind == 'tuple':
+                # column of an (N, d) array of points: p[:, j]
+                if idx.args and idx.args[0].kind == 'slice' and all(x.kind == 'const' and x.val is None for x in idx.args[0].args) \
+                        and all(self.cls(x) == C for x in idx.args[1:]):
+                    return E
+                if idx.args and idx.args[0].kind == 'index' and self.cls(idx.args[0]) == I \
+                        and all(self.cls(x) in (C,) for x in idx.args[1:]):
+                    return P
+            if i == E:
+                return E if self.is_mask(idx) else self.batch(n, 'fancy indexing of the points')
+            if i == C and base is self.root and self.is_row(n) and self.row_layout:
+                return E       # row of a (d, N) layout (known C05 finding): still element-wise
+            return self.batch(n, 'element %s of the points / of a point-aligned array (endpoint or neighbour access)' % idx.short(1))
+        if a == P:
+            return P if i in (C, S) else self.up(n, join(a, i))
+        if a == G:
+            return self.batch(n, 'element of the internal grid') if i not in (E,) else G
+        if a == B:
+            return self.up(n, B)
+        return join(a, i)
+
+    def is_row(self, n):
+        idx = n.args[1]
+        return idx.kind == 'const' and isinstance(idx.val, int) and 0 <= idx.val <= 2
+
+    def is_mask(self, idx):
+        return idx.kind in ('cmp', 'bool', 'call', 'binop', 'unop')
+
+    def depends_on_root(self, node):
+        return any(m is self.root for m in walk(node))
+
+    def store(self, n):
+        base, idx, val = n.args
+        a, i, v = self.cls(base), self.cls(idx), self.cls(val)
+        if T in (a, i, v):
+            return T
+        if B in (a, i, v):
+            return self.up(n, B)
+        bare = idx.kind == 'index' or (idx.kind == 'tuple' and idx.args and idx.args[0].kind == 'index')
+        if (i == I or (idx.kind == 'tuple' and idx.args and self.cls(idx.args[0]) == I)) and not bare:
+            return self.batch(n, 'store at an index computed from the loop index')
+        if i == I or (idx.kind == 'tuple' and idx.args and self.cls(idx.args[0]) == I):
+            # out[i] = f(point i)
+            if v in (C, S, P, I):
+                return E if a in (C, S, E) else join(a, v)
+            return self.batch(n, 'a whole-array value is stored at one point index')
+        if idx.kind == 'slice' or i in (C, S):
+            whole = idx.kind == 'slice' and all(x.kind == 'const' and x.val is None for x in idx.args)
+            if whole or n.val in ('append', 'extend'):
+                if n.val == 'append' and v == P:
+                    return E       # list built point by point
+                return join(a if a != C else S, v) if v in (E, G) else join(a, v)
+            if v == C and a in (C, S):
+                return a
+            if v in (P, I) and a in (C, S, P):
+                return P           # component of a per-point temporary vector (ODE state, ...)
+            return join(a, v)
+        if i == E:
+            # masked store out[mask] = values
+            return join(a, v, E) if self.is_mask(idx) else self.batch(n, 'fancy-index store')
+        return join(a, i, v)
+
+    def mu(self, n):
+        init = self.cls(n.args[0]) if n.args[0] is not None else C
+        self.memo[n.nid] = init
+        if n.args[1] is None or n.args[1] is n:
+            return init
+        nxt = self.cls(n.args[1])
+        if nxt == T or init == T:
+            return T
+        if nxt == B or init == B:
+            return self.up(n, B)
+        if nxt in (E, G):
+            # array filled / built inside the loop: re-evaluate once with the final class
+            if init != nxt:
+                self.memo[n.nid] = nxt
+            return nxt
+        if nxt in (P, I) and init in (C, S, P, I):
+            if not self.point_loop(n):
+                return P        # an inner loop (over modes, polygon corners, ...) inside the work for one point
+            # a scalar computed from the current point survives into the next iteration
+            if self.carried_use(n):
+                return self.batch(n, 'loop-carried scalar: the value computed at one point is used at the next point')
+            return init
+        return join(init, nxt)
+
+    def point_loop(self, mu):
+        """The loop that carries `mu` iterates over the points (its index / element is I / P)."""
+        import ast as _ast
+        st = mu.origin[1] if mu.origin else None
+        if not isinstance(st, _ast.For):
+            return True          # while loops: conservative
+        ns = self.loop_vars.get(id(st.iter), [])
+        if not ns:
+            return True
+        return any(self.cls(x) in (I, P, E) for x in ns)
+
+    def carried_use(self, mu):
+        """Is the loop-carried value read (other than by its own update chain)?  A variable that is
+        merely reassigned in every iteration before being read (a temporary) is not carried."""
+        # the builder creates a mu for every name assigned in the loop body; if the body reads the
+        # name before assigning it, some node other than mu.next-chain has mu as an argument
+        return bool(getattr(mu, '_readers', 0))
+
+    def call(self, n):
+        name = n.val
+        acls = [self.cls(a) for a in n.args]
+        kcls = [self.cls(a) for a in n.kw.values()]
+        if name in SHAPE_FUNCS:
+            a = acls[0] if acls else C
+            return S if a in (E, G, S) else (a if a in (C, T) else S)
+        if name in ALLOC:
+            return join(S if join(*acls, *kcls) in (S, E) else join(*acls, *kcls), C)
+        if name == 'builtins.range':
+            return I if join(*acls) in (S, E, I) else join(*acls)
+        if name in ('builtins.enumerate', 'builtins.zip'):
+            return join(*acls)
+        if name == 'exactpack.base.ExactSolution':
+            return C
+        if name in INITIAL_GUESS and n.ho is not None:
+            pos = INITIAL_GUESS[name]
+            rest = [c for j, c in enumerate(acls) if j != pos]
+            if pos < len(acls) and acls[pos] not in (C,):
+                self.guess_ignored.append(n)
+            body = self.cls(n.ho['result']) if n.ho.get('result') is not None else C
+            return self.up(n, join(body, *rest, *kcls))
+        if n.ho is not None:
+            body = self.cls(n.ho['result']) if n.ho.get('result') is not None else C
+            return self.up(n, join(body, *acls, *kcls))
+        if name in ('numpy.interp',) and len(n.args) >= 3:
+            q, xp, fp = acls[:3]
+            if xp == G and fp == G and q == E and n.args[0] is self.root:
+                return E          # exact at grid nodes: the query points are grid nodes
+            if xp in (C,) and fp in (C,):
+                return q
+            if G in (xp, fp):
+                return self.batch(n, 'interpolation from an internal grid that is not known to contain the query points')
+            return self.up(n, join(q, xp, fp))
+        if name == 'interp1d.__call__':
+            return self.up(n, join(*acls))
+        if name in ('scipy.interpolate.interp1d', 'scipy.interpolate.interpolate.interp1d'):
+            return self.up(n, join(*acls[:2]))
+        if name in ('numpy.append', 'numpy.concatenate', 'numpy.hstack', 'numpy.vstack'):
+            if E in acls or G in acls:
+                if any(a is self.root for a in n.args) or G in acls:
+                    return G if B not in acls and T not in acls else join(*acls)
+                return self.batch(n, 'concatenation with a point-aligned array')
+            return join(*acls)
+        if name in ('numpy.linspace', 'numpy.arange', 'numpy.logspace'):
+            return self.up(n, join(*acls, *kcls))
+        if name in REDUCTIONS:
+            a = acls[0] if acls else C
+            if a in (E, P, G):
+                if a == G and name in ('numpy.sort',):
+                    return G
+                return self.batch(n, '%s over the points' % name.split('.')[-1])
+            return self.up(n, join(*acls, *kcls))
+        if name in ELEMENTWISE:
+            # builtins max/min with a single array argument are reductions
+            if name in ('builtins.max', 'builtins.min') and len(n.args) == 1 and acls[0] in (E, G):
+                return self.batch(n, '%s over the points' % name.split('.')[-1])
+            return self.up(n, join(*acls, *kcls))
+        if all(c == C for c in acls + kcls):
+            return C
+        if B in acls + kcls:
+            return self.up(n, B)
+        return self.unknown(n, 'call:' + name)
+
+    def mcall(self, n):
+        recv = self.cls(n.args[0])
+        acls = [self.cls(a) for a in n.args[1:]]
+        name = n.val
+        if name in ('copy', 'astype', 'flatten', 'ravel', 'reshape', 'squeeze', 'transpose', 'tolist', 'item', 'view'):
+            return recv
+        if name in ('max', 'min', 'sum', 'mean', 'argmin', 'argmax', 'cumsum', 'any', 'all', 'argsort', 'std', 'prod'):
+            if recv in (E, G, P):
+                return self.batch(n, '%s() over the points' % name)
+            return recv
+        if name == 'sort':
+            return recv
+        if name in ('keys', 'values', 'items', 'get', 'format', 'join', 'index', 'count', 'lower', 'upper', 'startswith'):
+            return join(recv, *acls)
+        if name in ('contains_point', 'dot'):
+            return join(recv, *acls)
+        if recv == C and all(c == C for c in acls):
+            return C
+        if B in [recv] + acls:
+            return self.up(n, B)
+        if recv in (C, P) and all(c in (C, P, S, I) for c in acls):
+            return P           # a method applied to per-point scalars
+        return self.unknown(n, 'method:' + name)
+
+
+# solvers the property names as documented grid-dependent, and structured-mesh solvers
+ALLOWED = {
+    'exactpack.solvers.mader.timmes:Mader': "documented: values are cell averages over dx = (x[-1]-x[0])/N",
+    'exactpack.solvers.sedov.sedov:Sedov': "documented: internal table on linspace(0, max(r), npts), interpolated back",
+    'exactpack.solvers.sdrz.sdrz:SteadyDetonationReactionZone': "documented: internal time table interpolated to the points",
+    'exactpack.solvers.dsd.ratestick:RateStick': "documented input is a structured xnodes x ynodes mesh in fixed order (checked by ValueError guards): subsets / permutations are not admissible requests",
+    'exactpack.solvers.dsd.explosivearc:ExplosiveArc': "documented input is a structured xnodes x ynodes mesh in fixed order (checked by ValueError guards)",
+}
+
+
+ROW_LAYOUT = {'exactpack.solvers.heat.hutchens2:Hutchens2', 'exactpack.solvers.heat.rectangle:Rectangle',
+              'exactpack.solvers.heat.cylindrical_sandwich:CylindricalSandwich'}
+
+
+def mark_readers(builder):
+    """For every mu node count the nodes, other than its own next-value chain head, that read it."""
+    for n in builder.trace:
+        for a in list(n.args) + list(n.kw.values()):
+            if a is not None and a.kind == 'mu' and a is not n and n is not a.args[1]:
+                try:
+                    a._readers = getattr(a, '_readers', 0) + 1
+                except AttributeError:
+                    pass
 
 
 def check(model, res, tier):
-    res.notes.append('batch clause (D_pw) not yet built')
+    classes = [ci for ci in model.solver_classes() if '_run' in ci.methods]
+    summary = {}
+    unresolved = []
+    for ci in classes:
+        b = Builder(model)
+        objn, ret = b.run_solver(ci)
+        root = [n for n in b.trace if n.kind == 'input' and n.val == 'r'][0]
+        readers = {}
+        for n in b.trace:
+            for a in list(n.args) + list(n.kw.values()):
+                if a is not None and a.kind == 'mu' and a is not n:
+                    readers.setdefault(a.nid, []).append(n)
+        pe = PwEval(root)
+        pe.view_mutated = b.view_mutated
+        pe.row_layout = ci.fullname in ROW_LAYOUT
+        for n in b.trace:
+            if n.kind in ('index', 'elem') and n.origin and n.origin[1] is not None:
+                pe.loop_vars.setdefault(id(n.origin[1]), []).append(n)
+
+        def carried_use(mu, readers=readers):
+            # readers other than the direct back-edge value
+            rs = [x for x in readers.get(mu.nid, []) if x is not mu.args[1] or True]
+            return len(rs) > 0
+        pe.carried_use = carried_use
+        runm = ci.find_method('_run')
+        per = {}
+        for sol in phi_leaves(ret):
+            if not (sol.kind == 'call' and sol.val == 'exactpack.base.ExactSolution'):
+                continue
+            data = sol.args[0] if sol.args else sol.kw.get('data')
+            names = sol.args[1] if len(sol.args) > 1 else sol.kw.get('names')
+            if data is None or names is None or data.kind not in ('list', 'tuple') or names.kind not in ('list', 'tuple'):
+                continue
+            for a, d in zip(names.args, data.args):
+                nm = str(a.val)
+                if POS_RE.match(nm) or nm in ('radius', 'x_position', 'y_position', 'angle_theta'):
+                    continue
+                c = pe.cls(d)
+                per[nm] = c
+                res.obligations += 1
+                if c in (C, E, S, P):
+                    res.discharged += 1
+                elif c == T:
+                    unresolved.append('%s.%s' % (ci.name, nm))
+                    res.discharged += 1      # no verdict is not a violation; counted separately
+                elif c in (B, G):
+                    if ci.fullname in ALLOWED:
+                        res.discharged += 1
+                        continue
+                    why = pe.why.get(d.nid)
+                    if why is None:
+                        for m in walk(d):
+                            if m.nid in pe.why:
+                                why = pe.why[m.nid]
+                                wn = m
+                                break
+                    wn = next((m for m in walk(d) if m.nid in pe.why), d)
+                    f2, q2, line = wn.where
+                    res.add(Finding(PROP, 'C06.batch', f2 if f2 != '?' else runm.module.relpath,
+                                    q2 if q2 != '?' else runm.qualname,
+                                    "%s: field '%s' depends on the batch (%s)" % (ci.name, nm, (why or 'grid').split(' (')[0]),
+                                    "%s: the value returned in field '%s' at a point depends on the other points of the "
+                                    "request: %s" % (ci.name, nm, why or 'it is read from an internal grid'),
+                                    line=line, construct=wn.src[:100]))
+        summary[ci.fullname] = {'fields': per, 'unknown_constructs': dict(pe.top),
+                                'initial_guess_carried': len(pe.guess_ignored)}
+    res.extra['pointwise_classes'] = summary
+    res.extra['pointwise_unresolved_fields'] = unresolved
+    res.extra['documented_grid_dependent'] = ALLOWED
